@@ -61,6 +61,8 @@ type c11Scenario struct {
 	viaOutputs bool  // the extra client header reaches the party only through .Outputs of an earlier (uncached) step
 	variation  string // name of the drawn variation of the basic configuration ("" = none)
 	signed     bool   // requests to the party carry an RFC 9421 signature (differs per request)
+	alsoCount  string // a second party whose calls count as "calling the remote system" in the effectiveness part
+	stsNoExpiry bool
 	jwks       []byte // jwt-authn: the key set the identity provider publishes
 	cleanup    func()
 }
@@ -91,6 +93,7 @@ func c11Digest(req *http.Request, body []byte) string {
 }
 
 var c11CurJWKS []byte
+var c11STSNoExpiry bool
 
 // installParties registers the stateless simulated parties.
 func c11Parties(e *env) {
@@ -150,7 +153,11 @@ func c11Parties(e *env) {
 		vals := parseForm(string(body))
 		h := sha256.Sum256([]byte(vals["scope"] + "|" + req.Header.Get("Authorization")))
 		w.Header().Set("Content-Type", "application/json")
-		json.NewEncoder(w).Encode(map[string]any{"access_token": "at-" + hex.EncodeToString(h[:6]) + "-" + strings.ReplaceAll(vals["scope"], " ", "+"), "token_type": "Bearer", "expires_in": 3600})
+		tok := map[string]any{"access_token": "at-" + hex.EncodeToString(h[:6]) + "-" + strings.ReplaceAll(vals["scope"], " ", "+"), "token_type": "Bearer", "expires_in": 3600}
+		if c11STSNoExpiry {
+			delete(tok, "expires_in") // nothing is known about its lifetime: heimdall does not cache it (no ttl configured)
+		}
+		json.NewEncoder(w).Encode(tok)
 	})
 }
 
@@ -443,7 +450,14 @@ func c11Build(s *simcore.Source) c11Scenario {
 		if len(hkeys) > 0 {
 			hy = "          headers:\n" + yamlMap("            ", hkeys, c11StaticHeaderPool)
 		}
-		sc.mech = "mechanisms:\n  authenticators:\n    - id: mut\n      type: oauth2_introspection\n      config:\n        introspection_endpoint:\n          url: http://idp/introspect\n" + hy +
+		epAuth := ""
+		if s.Draw(3, "endpoint-auth") == 2 {
+			// heimdall authenticates at the introspection endpoint with a token it cannot cache
+			epAuth = "          auth:\n            type: oauth2_client_credentials\n            config:\n              token_url: http://sts/token\n              client_id: heimdall\n              client_secret: secret\n"
+			sc.alsoCount = "sts"
+			sc.stsNoExpiry = true
+		}
+		sc.mech = "mechanisms:\n  authenticators:\n    - id: mut\n      type: oauth2_introspection\n      config:\n        introspection_endpoint:\n          url: http://idp/introspect\n" + epAuth + hy +
 			"        assertions:\n          issuers: [ \"iss1\" ]\n        subject:\n          id: sub\n          attributes: \"@this\"\n        cache_ttl: 5m\n" +
 			"  finalizers:\n    - id: echo\n      type: header\n      config:\n        headers:\n          X-User: \"{{ .Subject.ID }}\"\n          X-Digest: \"{{ .Subject.Attributes.digest }}\"\n"
 		step1 := "    - authenticator: mut\n    - finalizer: echo"
@@ -457,7 +471,7 @@ func c11Build(s *simcore.Source) c11Scenario {
 			step2 = "    - authenticator: mut\n      config:\n        assertions:\n          audience: [ \"svc-bob\" ]\n    - finalizer: echo"
 		}
 		sc.rules = fmt.Sprintf(c11RuleTpl, step1, step2)
-		sc.describe = fmt.Sprintf("headers=%v", hkeys)
+		sc.describe = fmt.Sprintf("headers=%v endpoint-auth=%v", hkeys, epAuth != "")
 	case "jwt-authn":
 		// two jwt authenticators on one key-set endpoint which differ in how far they trust the published key: the
 		// certificate of the key chains to CA 1; the second authenticator trusts CA 2 only
@@ -579,6 +593,9 @@ func c11Do(e *env, sc c11Scenario, q c11Req) c11Obs {
 	}
 	if sc.party != "" {
 		o.partyN = res.calls[sc.party]
+		if sc.alsoCount != "" {
+			o.partyN += res.calls[sc.alsoCount]
+		}
 		if sc.kind != "generic-authn" && sc.kind != "introspection" && sc.kind != "jwt-authn" && sc.party == "idp" {
 			o.partyN = 0
 		}
@@ -594,6 +611,7 @@ func c11Sim(r *simcore.Run) {
 			defer sc.cleanup()
 		}
 		c11CurJWKS = sc.jwks
+		c11STSNoExpiry = sc.stsNoExpiry
 		envMutate = nil
 		if sc.signed {
 			envMutate = func(c *config.Configuration) {
